@@ -25,3 +25,20 @@ package roothash
 //@   ensures err == nil && !old(abciAPI.IsCheck(ctx)) && !old(abciAPI.IsSim(ctx)) ==> abciAPI.GCommits == old(abciAPI.GCommits) + 1
 //@   ensures err != nil ==> abciAPI.GCommits == old(abciAPI.GCommits)
 //@   note the token transfer runs in a transaction context (overlay); every failing return before Commit leaves the tree the handler was entered with unwritten
+
+// ---- round finalization in EndBlock (C10): round-level outcomes of the commitment pool never become a block-level error ----
+
+//@ import "github.com/oasisprotocol/oasis-core/go/roothash/api/commitment"
+
+//@ func rearmRoundTimeout
+//@   props C10
+//@   ensures err == nil || fresh(err)
+
+//@ func Application.failRound
+//@   props C10
+//@   ensures result == nil || fresh(result)
+
+//@ func Application.tryFinalizeRoundInsideTx
+//@   props C10
+//@   ensures-local result != nil && !defined(firstSchedulerIdx) ==> result != commitment.ErrBadSchedulerCommitment && result != commitment.ErrNoSchedulerCommitment && result != commitment.ErrInsufficientVotes && result != commitment.ErrStillWaiting
+//@   note whatever the executor nodes committed (no or a bad scheduler commitment, too few votes, still waiting), the attempt to finalize a round does not return that outcome as an error: EndBlock errors are fatal in the multiplexer, and these outcomes are produced by ordinary transactions of compute nodes
